@@ -13,6 +13,7 @@ CONSTANTS
   Bug = "none"
   MaxLen = 2
   DumpCases = FALSE
+  Uni = "full"
 INVARIANTS Refines
 CHECK_DEADLOCK FALSE
 """, tag="RadixMC_order")
